@@ -14,6 +14,7 @@ def parseKind (j : Json) : Option ColKind := do
   | "plain" => some .plain
   | "cd" => (jNat? (arg a 1)).map ColKind.clientDefault
   | "dd" => (jNat? (arg a 1)).map ColKind.dbDefault
+  | "dn" => some .dbNull
   | "ac" => some .autoCreate
   | "au" => some .autoUpdate
   | "sd" => some .softDelete
@@ -94,12 +95,24 @@ def parseStep (j : Json) : Option Step := do
   | "ctx" => some .withCtx
   | _ => none
 
+def parseNats (j : Json) : Option (List Nat) := do
+  (← jArr? j).toList.mapM jNat?
+
+def parseSrc (j : Json) : Option Src := do
+  let a ← jArr? j
+  let n ← jStr? (arg a 0)
+  match n with
+  | "struct" => some (.struct (← parseNats (arg a 1)) (← parseNats (arg a 2)))
+  | "map" => some (.map (← parseNats (arg a 1)))
+  | _ => none
+
 def parseFin (j : Json) : Option Fin := do
   let a ← jArr? j
   let n ← jStr? (arg a 0)
   match n with
   | "save" => some (.save (← parseRow (arg a 1)))
   | "create" => some (.create (← parseRow (arg a 1)))
+  | "createfrom" => some (.createFrom (← parseSrc (arg a 1)) (← parseRow (arg a 2)))
   | "foi" => some (.firstOrInit (← parseConds (arg a 1)))
   | "foc" => some (.firstOrCreate (← parseConds (arg a 1)))
   | _ => none
@@ -119,6 +132,15 @@ def outJ (sch : Schema) (o : Out) : Json :=
   Json.mkObj [("rows", Json.arr rows.toArray), ("next", natJ o.store.next), ("val", rowJ sch o.val),
     ("ra", natJ o.ra), ("err", Json.str (match o.err with | .ok => "ok" | .unique => "unique"))]
 
+def parseUse (j : Json) : Option (List Step × Fin) := do
+  let a ← jArr? j
+  let steps ← (← jArr? (arg a 0)).toList.mapM parseStep
+  some (steps, ← parseFin (arg a 1))
+
+def asgJ (c : Nat) : Asg → Json
+  | .excluded => Json.arr #[natJ c, Json.null]
+  | .lit x => Json.arr #[natJ c, natJ x]
+
 end HC16
 
 open HC16 in
@@ -134,6 +156,26 @@ def handleC16 (op : String) (args : Array Json) : Option Json := do
     let steps ← (← jArr? (arg args 5)).toList.mapM parseStep
     let fin ← parseFin (arg args 6)
     some (outJ sch (runChain cfg sch st steps fin))
+  | "c16.reuse" =>
+    -- ["c16.reuse", cfg, kinds, rows, next, prefix, [[steps, fin]…]] -> one {rows,…} per use (genRecvW)
+    let cfg ← parseCfg (arg args 1)
+    let sch ← parseSchema (arg args 2)
+    let st ← parseStore (arg args 3) (arg args 4)
+    let pre ← (← jArr? (arg args 5)).toList.mapM parseStep
+    let uses ← (← jArr? (arg args 6)).toList.mapM parseUse
+    some (Json.arr ((useSeq cfg genRecvW sch st (Handle.base.run cfg pre) uses).map (outJ sch)).toArray)
+  | "c16.cols" =>
+    -- ["c16.cols", kinds, src, row] -> {ins: listed columns, set: the UpdateAll expansion [[col, null|lit]…]}
+    let sch ← parseSchema (arg args 1)
+    let src ← parseSrc (arg args 2)
+    let v ← parseRow (arg args 3)
+    let ins := src.listed sch v
+    let cols := List.range sch.ncols
+    some (Json.mkObj [("ins", natListJ (cols.filter ins)),
+      ("set", Json.arr (cols.filterMap (fun c => (updateAllIns sch src ins c).map (asgJ c))).toArray)])
+  | "c16.genrecvw" =>
+    some (Json.arr ([FinKind.save, .create, .firstOrInit, .firstOrCreate].map (fun k =>
+      Json.arr ([Fld.clauses, .attrs, .assigns].map (fun f => Json.bool (genRecvW k f))).toArray)).toArray)
   | "c16.gencfg" =>
     some (Json.arr #[Json.bool genCfg.clauses, Json.bool genCfg.attrs, Json.bool genCfg.assigns])
   | _ => none
